@@ -51,6 +51,7 @@ use astria_eyre::{
     eyre_to_anyhow,
 };
 use cnidarium::{
+    StateDelta,
     StateRead,
     StateWrite,
 };
@@ -382,9 +383,21 @@ impl AppHandlerExecute for Ics20Transfer {
             .map_err(|err| eyre_to_anyhow(err).context("failed to read upgrade info"))?
             .is_some();
 
-        let ack = match receive_tokens(&mut state, &msg.packet).await {
-            Ok(()) => TokenTransferAcknowledgement::success(),
+        // Run the transfer in a nested delta so that a transfer which fails part-way (and is
+        // then acknowledged with an error) leaves no balance change, cached deposit or deposit
+        // event behind.
+        let mut nested_state = StateDelta::new(&mut state);
+        let result = receive_tokens(&mut nested_state, &msg.packet).await;
+        let ack = match result {
+            Ok(()) => {
+                let (_, events) = nested_state.apply();
+                for event in events {
+                    state.record(event);
+                }
+                TokenTransferAcknowledgement::success()
+            }
             Err(e) => {
+                drop(nested_state);
                 tracing::warn!(
                     error = AsRef::<dyn std::error::Error>::as_ref(&e),
                     "failed to execute ics20 transfer"
